@@ -598,64 +598,40 @@ impl LuaModuleIndex {
 
 impl LuaIndex for LuaModuleIndex {
     fn remove(&mut self, file_id: FileId) {
-        // Drop the file from the fuzzy-search name map first: the tree pruning below returns
-        // early in several cases, which used to leave stale ids behind.
-        if let Some(module_name) = self
-            .file_module_map
-            .get(&file_id)
-            .map(|module_info| module_info.name.clone())
-            && let Some(file_ids) = self.module_name_to_file_ids.get_mut(&module_name)
-        {
+        let Some(module_info) = self.file_module_map.remove(&file_id) else {
+            return;
+        };
+
+        // fuzzy-name index: must be cleaned whatever happens to the module tree below
+        if let Some(file_ids) = self.module_name_to_file_ids.get_mut(&module_info.name) {
             file_ids.retain(|id| *id != file_id);
             if file_ids.is_empty() {
-                self.module_name_to_file_ids.remove(&module_name);
+                self.module_name_to_file_ids.remove(&module_info.name);
             }
         }
 
-        let (mut parent_id, mut child_id) =
-            if let Some(module_info) = self.file_module_map.remove(&file_id) {
-                let module_id = module_info.module_id;
-                let node = match self.module_nodes.get_mut(&module_id) {
-                    Some(node) => node,
-                    None => return,
-                };
-                node.file_ids.retain(|id| *id != file_id);
-                if node.file_ids.is_empty() && node.children.is_empty() {
-                    (node.parent, Some(module_id))
-                } else {
-                    (None, None)
-                }
-            } else {
-                (None, None)
-            };
-
-        if parent_id.is_none() || child_id.is_none() {
-            return;
+        let module_id = module_info.module_id;
+        if let Some(node) = self.module_nodes.get_mut(&module_id) {
+            node.file_ids.retain(|id| *id != file_id);
         }
 
-        while let Some(id) = parent_id {
-            let child_module_id = match child_id {
-                Some(id) => id,
-                None => break,
+        // prune nodes that became empty, from the leaf upwards (the root always stays)
+        let mut current_id = module_id;
+        while current_id != self.module_root_id {
+            let parent_id = match self.module_nodes.get(&current_id) {
+                Some(node) if node.file_ids.is_empty() && node.children.is_empty() => node.parent,
+                _ => break,
             };
-            let node = match self.module_nodes.get_mut(&id) {
-                Some(node) => node,
-                None => break,
-            };
-            node.children
-                .retain(|_, node_child_idid| *node_child_idid != child_module_id);
-
-            if id == self.module_root_id {
-                return;
-            }
-
-            if node.file_ids.is_empty() && node.children.is_empty() {
-                child_id = Some(id);
-                parent_id = node.parent;
-                self.module_nodes.remove(&id);
-            } else {
+            self.module_nodes.remove(&current_id);
+            let Some(parent_id) = parent_id else {
                 break;
+            };
+            if let Some(parent_node) = self.module_nodes.get_mut(&parent_id) {
+                parent_node
+                    .children
+                    .retain(|_, child_id| *child_id != current_id);
             }
+            current_id = parent_id;
         }
     }
 
